@@ -13,5 +13,6 @@ func TestCheck(t *testing.T) {
 
 	rt.Rapid(e, "roundtrip", 120_000, 480_000, genCase(false), Run)
 	rt.Rapid(e, "roundtrip-formats", 80_000, 320_000, genCase(true), Run)
+	rt.Rapid(e, "repr", 80_000, 480_000, genRepr, RunRepr)
 	rt.Enum(e, "float32-sweep", func(yield func(F32Case) bool) { enumFloat32(e, yield) }, RunF32)
 }
